@@ -16,8 +16,8 @@ import jax
 import jax.numpy as jnp
 
 from dverif import smt
-from dverif.poly import Space, PolyArr
-from dverif.jsym import Interp, trace, is_sym, Unsupported
+from dverif.poly import Space, PolyArr, clear_recip
+from dverif.jsym import Interp, trace, is_sym, Unsupported, NonFiniteConstant
 
 VERIF = os.path.dirname(os.path.dirname(os.path.abspath(__file__)))
 EVID = os.path.join(VERIF, 'evidence')
@@ -47,6 +47,12 @@ class Ctx:
     self.tier = tier
     self.rng = np.random.default_rng(seed)
     self.t0 = time.time()
+    self.replay = None
+    rp = os.environ.get('DVERIF_REPLAY')
+    if rp:
+      with open(rp) as f:
+        self.replay = json.load(f)
+      self.replay_hits = 0
 
   # -- bookkeeping
   def encoded(self, *fns):
@@ -256,7 +262,7 @@ def _find_witness(sp: Space, cols, vals, tau, rng, model_y=None, nra_timeout=100
 
 def prove_close(ctx: Ctx, name, fn, args, sp: Space, *, eps=1e-9, select=None, scale_floor=0.0,
                 exact=False, twin=True, core=True, config=None, batch=128, ref_scale=None,
-                validate=True, pre=None):
+                validate=True, pre=None, clear_denominators=False):
   """Obligation: for every assignment in the box, lhs == rhs within eps * S.
 
   `fn(*args)` returns (lhs_tree, rhs_tree) with equal structure, or a single tree (compared
@@ -266,11 +272,52 @@ def prove_close(ctx: Ctx, name, fn, args, sp: Space, *, eps=1e-9, select=None, s
   """
   t0 = time.time()
   config = config or {}
+  if ctx.replay is not None:
+    rp = ctx.replay
+    same = (rp.get('clause') == name and
+            json.dumps(rp.get('signature', {}).get('config', {}), sort_keys=True, default=str) ==
+            json.dumps(json.loads(json.dumps(config, default=_json_default)), sort_keys=True, default=str))
+    if same and 'inputs' in rp:
+      conc = [np.asarray(v, dtype=float) for v in rp['inputs']]
+      out = jax.jit(fn)(*conc)
+      sig = rp['signature']
+      if sig.get('kind') == 'nonfinite':
+        bad = [i for i, o in enumerate(jax.tree_util.tree_leaves(out)) if not np.all(np.isfinite(np.asarray(o)))]
+        print(f'REPLAY {name}: non-finite leaves {bad}')
+        reproduced = bool(bad)
+      else:
+        li = sig['leaf']; idx = tuple(sig['index'])
+        if isinstance(out, tuple) and len(out) == 2 and ref_scale is None:
+          lv = float(np.asarray(jax.tree_util.tree_leaves(out[0])[li])[idx]); rv = float(np.asarray(jax.tree_util.tree_leaves(out[1])[li])[idx])
+        else:
+          lv = float(np.asarray(jax.tree_util.tree_leaves(out)[li])[idx]); rv = 0.0
+        d = abs(lv - rv)
+        print(f'REPLAY {name} config={config}: lhs={lv!r} rhs={rv!r} |lhs-rhs|={d:.6e} tolerance={rp.get("tolerance")}')
+        reproduced = (not np.isfinite(d)) or d > 0.5 * float(rp.get('tolerance') or 0.0)
+      ctx.replay_hits += 1
+      if reproduced:
+        ctx.res['violations'].append(dict(clause=name, signature=sig, replay=os.environ['DVERIF_REPLAY'], message='replayed'))
+    return True
   try:
     outs, treedef, it = (pre if pre is not None else interpret(fn, args, sp))
   except Unsupported as e:
     ctx.error(name, f'unsupported: {e}')
     ctx.clause(name, 'error', config=config, message=str(e))
+    return False
+  except NonFiniteConstant as e:
+    # the IR contains inf/nan constants: replay on the real function at a random point
+    xv = sp.random_point(ctx.rng)
+    conc = [np.asarray(a.evaluate(xv)) if is_sym(a) else np.asarray(a) for a in args]
+    out = jax.tree_util.tree_leaves(jax.jit(fn)(*conc))
+    bad = [i for i, o in enumerate(out) if not np.all(np.isfinite(np.asarray(o)))]
+    if bad:
+      ctx.violation(name, dict(config=config, kind='nonfinite', leaves=bad),
+                    dict(inputs=[c.tolist() for c in conc], detail=str(e)),
+                    f'{name}: non-finite output for a finite input ({e})')
+      ctx.clause(name, 'failed', config=config, message=str(e))
+    else:
+      ctx.error(name, f'non-finite constant in IR but finite outputs on replay: {e}')
+      ctx.clause(name, 'error', config=config, message=str(e))
     return False
   tree = jax.tree_util.tree_unflatten(treedef, outs)
   if isinstance(tree, tuple) and len(tree) == 2 and ref_scale is None:
@@ -300,17 +347,24 @@ def prove_close(ctx: Ctx, name, fn, args, sp: Space, *, eps=1e-9, select=None, s
       ma = a_sym.mass(); mb = b_sym.mass()
       S = max(float(ma.max(initial=0.0)), float(mb.max(initial=0.0)), scale_floor)
     tau = 0.0 if exact else eps * S
+    taus = np.full(diff.size, tau)
+    if clear_denominators:
+      diff, fac = clear_recip(diff)
+      if np.any(fac == 0):
+        ctx.error(name, 'a denominator is not sign-definite on the box')
+        ok = False
+      taus = taus * fac.reshape(-1)
     sel = np.ones(diff.shape, bool) if (select is None or select[li] is None) else np.broadcast_to(select[li], diff.shape)
     M = diff.M.tocsr(); M.sum_duplicates()
     dm = diff.mass().reshape(-1)
-    worst = max(worst, float((dm * sel.reshape(-1)).max(initial=0.0)) / (S if S > 0 else 1.0))
+    worst = max(worst, float(np.where(sel.reshape(-1), dm, 0.0).max(initial=0.0)) / (S if S > 0 else 1.0))
     rows = []
     selflat = sel.reshape(-1)
     cand = np.nonzero(selflat & (dm > 0))[0]
     for rid in cand:
       s, e = M.indptr[rid], M.indptr[rid + 1]
-      const, cols, vals, slack, L, H = _row_query_terms(sp, M.indices[s:e], M.data[s:e], tau)
-      rows.append((int(rid), const, cols, vals, slack, tau, L, H))
+      const, cols, vals, slack, L, H = _row_query_terms(sp, M.indices[s:e], M.data[s:e], taus[rid])
+      rows.append((int(rid), const, cols, vals, slack, float(taus[rid]), L, H))
     nrows += int(selflat.sum())
     for i in range(0, len(rows), batch):
       chunk = rows[i:i + batch]
@@ -333,7 +387,7 @@ def prove_close(ctx: Ctx, name, fn, args, sp: Space, *, eps=1e-9, select=None, s
         rid = r[0]
         s, e = M.indptr[rid], M.indptr[rid + 1]
         cols_all, vals_all = M.indices[s:e], M.data[s:e]
-        x = _find_witness(sp, cols_all, vals_all, tau, ctx.rng)
+        x = _find_witness(sp, cols_all, vals_all, float(taus[rid]), ctx.rng)
         if x is None:
           ctx.error(name, f'abstraction sat but no concrete witness (leaf {li}, element {rid}, mass {dm[rid]:.3e}, tau {tau:.3e})')
           ok = False
@@ -354,8 +408,10 @@ def prove_close(ctx: Ctx, name, fn, args, sp: Space, *, eps=1e-9, select=None, s
     # vacuity twin: perturb the oracle by a relative 1e-6 -> must be sat
     if twin and not twin_done and ok and not exact:
       ref = a_sym
+      if b is not None and float(mb.max(initial=0.0)) > float(ma.max(initial=0.0)):
+        ref = b_sym
       mref = ref.mass().reshape(-1) * selflat
-      if mref.max(initial=0.0) > 0:
+      if mref.max(initial=0.0) > 2e-3 * S and S > 0:
         rid = int(np.argmax(mref))
         tw = diff.add(ref.scale(1e-6))
         Mt = tw.M.tocsr(); Mt.sum_duplicates()
